@@ -1,4 +1,5 @@
 """Counter-model -> concrete python/JSON values for the parameters of the function under verification."""
+from . import ops
 import z3
 from .vals import *
 from .ty import *
@@ -46,7 +47,7 @@ def value(model, v, depth=0):
         if v.elem is None:
             return []
         n = min(max(_int(model, z3.Length(v.z)), 0), 64)
-        return [value(model, from_z3(v.z[i], v.elem), depth + 1) for i in range(n)]
+        return [value(model, from_z3(ops.nth(v.z, i, v.elem), v.elem), depth + 1) for i in range(n)]
     if isinstance(v, VTuple):
         return {'__tuple__': [value(model, i, depth + 1) for i in v.items]}
     if isinstance(v, VRec):
